@@ -144,6 +144,20 @@ def run(rep, tier, seed):
             for rows, cols, dim, nt in itertools.product(rows_l, cols_l, dims, threads):
                 for b in (batches if isb else [None]):
                     jobs[cfg].append((variant, rows, cols, dim, b, nt))
+    # tall trees (the permutation is opaque, so the cost is linear in the number of nodes): every level count up to 2^10 (2^12
+    # thorough), with a narrow matrix; a counter or an index that is too narrow, a level cap, a per-level buffer that is reused
+    # wrongly shows here
+    tall = [64, 256, 1024] if tier == 'quick' else [64, 128, 256, 512, 1024, 2048, 4096]
+    for variant, isb, only in BUILDERS:
+        for cfg in ('avx2', 'avx512'):
+            if only and cfg != only:
+                continue
+            if cfg == 'avx512' and not only and variant not in ('merkletree', 'merkletree_batch'):
+                continue
+            for rows in tall:
+                for cols, dim in ((1, 1), (5, 3)) if rows <= 256 else ((3, 1),):
+                    for b in ([2, 4] if isb else [None]):
+                        jobs[cfg].append((variant, rows, cols, dim, b, 2))
     # threshold-directed shapes: both sides of every integer constant the tree / sponge code has that the pinned tree did not
     from .. import thresholds
     ths = thresholds.new_thresholds('poseidon')
